@@ -30,11 +30,6 @@ structure FRefines (content : Bytes → Bytes) (I : Impl) where
   quiet_step : ∀ s op, Inv s → Quiet s → op.WK content →
     (I.step s op).2 = out (abs s) op ∧ abs (I.step s op).1 = next (abs s) op ∧ Quiet (I.step s op).1
 
-/-- the state after a history -/
-def Impl.runState (I : Impl) : I.σ → List Op → I.σ
-  | s, [] => s
-  | s, op :: ops => I.runState (I.step s op).1 ops
-
 /-- the invariant survives every history, whatever failed during it -/
 theorem FRefines.reach_inv {content : Bytes → Bytes} {I : Impl} (F : FRefines content I) (s : I.σ)
     (h : F.Inv s) (ops : List Op) (hops : ∀ op ∈ ops, op.WK content) : F.Inv (I.runState s ops) := by
